@@ -72,7 +72,8 @@ CLAIMED = {
             "set_values_from_df) with only benign perturbations (row / column permutations). The import must return exactly the exported array; "
             "to_df must list every entry once (sparse: exactly the non-zero ones); whenever an import returns, every entry comes from the unique "
             "row carrying its labels. Includes worlds with one dimension of > 32767 items, counter dimensions 0..n-1, nested item sets, unnamed "
-            "index levels and 'Unnamed: k' columns, a named columns axis, infinite values, values that repeat a dimension's labels, and 30 % "
+            "index levels and 'Unnamed: k' columns, an unnamed index of calendar years, tables without a header line (first record read as header), "
+            "a named columns axis, infinite values, a complete line of NaN through the wide export, values that repeat a dimension's labels, documented defaults left out of the calls, and 30 % "
             "safety-only runs with harmful record faults judged by the last sentence of the property alone. Partial fit: the only genuinely simulated parts are the "
             "file media and the permutation 'faults'; the rest is the fault-free baseline of the C12 machine.",
             "Trusted: the frame model and expectation() in engines/iochan.py. Layouts are generated only inside what the property promises "
@@ -112,8 +113,10 @@ CLAIMED = {
             "entry by >= 2 tol or <= tol/2, to NaN, or to a negative value, and heals undo them. After every batch check_mass_balance / "
             "check_flows run in both modes with explicit and default tolerance and are judged against a by-label reference (explicit loops, "
             "math.fsum) computed from the current arrays: pass <=> within tolerance, raise or warning otherwise, NaN never success, pass again "
-            "after heal, exactly the flagged flows named. 'entrysweep' tasks fault every entry of every array of sampled systems.",
-            "Trusted: ref_imbalance / ref_default_tolerance in engines/syssim.py. Verdicts with an imbalance in (tol/2, 2 tol) are skipped. Honest "
+            "after heal, exactly the flagged flows named. Further faults: +inf / -inf pairs, two neighbouring flows at once, entries 4 ppm above / below an "
+            "explicit tolerance, and graph edits between two checks (a stock moved to another process, a flow replaced by one of the same name "
+            "between other processes); documented defaults are left out of about half of the calls. 'entrysweep' tasks fault every entry of every array of sampled systems.",
+            "Trusted: ref_imbalance / ref_default_tolerance in engines/syssim.py. Verdicts with an imbalance in (tol/2, 2 tol) are skipped (with an explicit tolerance and whole-number data: only within a few ulp of the tolerance). Honest "
             "scope: check_mass_balance is a pure function of the arrays; the simulation contributes balanced-by-construction systems of arbitrary "
             "shape, exact ground truth for each injected fault, and fault/heal histories.",
             "5.5"),
@@ -126,6 +129,7 @@ CLAIMED = {
             "holds every flow / stock / dimension / process / endpoint, reads back with from_df (pandas form, CSV files) into identical arrays, one "
             "file per flow and per exported stock quantity and nothing else new; an export whose write failed must not return normally; repeating "
             "the export into the same location afterwards succeeds; flows and stocks exported into one directory leave each other's files alone. "
+            "Worlds include user-supplied stock arrays with their own labels, a 110-character process name, and systems reassembled by hand with the processes in another order; the snapshot includes the writeable flag of every array. "
             "'iosweep' tasks fault every open() index x a grid of byte budgets.",
             "Trusted: the failing-file wrappers and _judge_export. Content of files left by a failed export is not judged. 0-dimensional arrays are "
             "only required to hold their value (they have no labels to read back by).",
